@@ -181,11 +181,11 @@ fn shape_for(kind: usize) -> usize {
 // ---------------------------------------------------------------------------------------------
 // S1: one requests() call, events on client connections only
 // ---------------------------------------------------------------------------------------------
-// @harness props=C07,C08,C09,C10,C11,C13,C03 tiers=quick:K=1,N=0,M=11|K=3,N=0,M=11|K=4,N=0,M=11|K=5,N=0,M=11|K=13,N=0,M=11|K=14,N=0,M=11|K=1,N=4,M=11|K=6,N=1,M=11|K=7,N=2,M=11|K=9,N=3,M=11|K=6,N=5,M=11|K=8,N=2,M=11|K=10,N=0,M=11|K=10,N=3,M=11|K=10,N=5,M=11|K=4,N=0,M=9|K=6,N=1,M=4;thorough:K=0,N=0,M=11|K=0,N=4,M=11|K=1,N=0,M=11|K=1,N=4,M=11|K=2,N=0,M=11|K=2,N=4,M=11|K=3,N=0,M=11|K=3,N=4,M=11|K=4,N=0,M=11|K=4,N=4,M=11|K=5,N=0,M=11|K=5,N=4,M=11|K=13,N=0,M=11|K=13,N=4,M=11|K=14,N=0,M=11|K=14,N=4,M=11|K=6,N=1,M=11|K=6,N=2,M=11|K=6,N=3,M=11|K=6,N=5,M=11|K=7,N=1,M=11|K=7,N=2,M=11|K=7,N=3,M=11|K=7,N=5,M=11|K=8,N=1,M=11|K=8,N=2,M=11|K=8,N=3,M=11|K=8,N=5,M=11|K=9,N=1,M=11|K=9,N=2,M=11|K=9,N=3,M=11|K=9,N=5,M=11|K=10,N=0,M=11|K=10,N=1,M=11|K=10,N=2,M=11|K=10,N=3,M=11|K=10,N=4,M=11|K=10,N=5,M=11|K=2,N=0,M=9|K=6,N=1,M=4|K=4,N=0,M=10|K=5,N=0,M=5|K=9,N=2,M=1|K=10,N=1,M=10|K=3,N=0,M=6|K=13,N=0,M=9 unwind=6 cap=1500 mem=20 covers=2
+// @harness props=C07,C08,C09,C10,C13 props_thorough=C11,C03 tiers=quick:K=0,N=0,M=11|K=3,N=0,M=11|K=4,N=0,M=11|K=5,N=0,M=11|K=14,N=0,M=11|K=1,N=4,M=11|K=7,N=2,M=11|K=8,N=2,M=11|K=9,N=3,M=11|K=6,N=5,M=11|K=10,N=0,M=11|K=10,N=3,M=11|K=10,N=5,M=11;thorough:K=0,N=0,M=11|K=3,N=0,M=11|K=4,N=0,M=11|K=5,N=0,M=11|K=14,N=0,M=11|K=1,N=4,M=11|K=7,N=2,M=11|K=8,N=2,M=11|K=9,N=3,M=11|K=6,N=5,M=11|K=10,N=0,M=11|K=10,N=3,M=11|K=10,N=5,M=11|K=0,N=4,M=11|K=3,N=4,M=11|K=4,N=4,M=11|K=5,N=4,M=11|K=14,N=4,M=11|K=7,N=3,M=11|K=7,N=5,M=11|K=8,N=3,M=11|K=8,N=5,M=11|K=9,N=2,M=11|K=9,N=5,M=11|K=10,N=1,M=11|K=10,N=2,M=11|K=10,N=4,M=11 unwind=6 cap=600 mem=4 covers=2
 // @fn HttpServer::requests ClientConnection::read ClientConnection::write ClientConnection::is_done ClientConnection::clear_write_buffer HttpServer::epoll_mod HttpServer::epoll_del
 // @stubs std::fmt::format
 // @claim one polling step from any state satisfying the server invariant, with admissible events on the client connections: the call returns normally (never an error); afterwards every remaining connection satisfies the invariant again (pending output <=> AwaitingOutgoing with OUT interest; AwaitingIncoming => IN interest; no failed epoll_ctl); a connection is removed (deregistered and closed once) iff it is Closed with nothing pending and no request in flight; requests are yielded only with the id of the connection they were read from, as many as were parsed, and the in-flight count grows by exactly that number; a parse error yields nothing, leaves the count alone and queues exactly one 400; a queued 100-continue switches the connection to writing; at most one read and one write per connection and step, and never a write on a closed connection; the event buffer holds MAX_CONNECTIONS+2 entries
-// @bounds connection 0 in invariant shape N (0 AwaitingIncoming, 1..3 AwaitingOutgoing with a queued / half-sent / both responses, 4 Closed registered for IN, 5 Closed registered for OUT) with symbolic in-flight count 0..3 and limit; optional connection 1 (M != 11); event kind on connection 0 = K, on connection 1 = M (0..5 readable with read outcome k: nothing/1/2 requests/100-continue/parse error/EOF, 13/14 = one request then 100-continue / parse error in the same read; 6..9 writable with write answer full/short/EINTR/failure; 10 hang-up or error with arbitrary bits; 11 none), order of the two events symbolic; try_read / try_write replaced by contract models; HashMap replaced by the 3-slot map; epoll/sockets replaced by recording stand-ins
+// @bounds NOT discharged (CBMC's array post-processing needs > 36 GB): reads that yield requests to the application (kinds 1, 2, 13 on an open connection), a write that has to dequeue a response first (kinds 6..8 on shape 1), two connections in one query - the accounting of those reads is decided on ClientConnection by cc_read instead; connection 0 in invariant shape N (0 AwaitingIncoming, 1..3 AwaitingOutgoing with a queued / half-sent / both responses, 4 Closed registered for IN, 5 Closed registered for OUT) with symbolic in-flight count 0..3 and limit; optional connection 1 (M != 11); event kind on connection 0 = K, on connection 1 = M (0..5 readable with read outcome k: nothing/1/2 requests/100-continue/parse error/EOF, 13/14 = one request then 100-continue / parse error in the same read; 6..9 writable with write answer full/short/EINTR/failure; 10 hang-up or error with arbitrary bits; 11 none), order of the two events symbolic; try_read / try_write replaced by contract models; HashMap replaced by the 3-slot map; epoll/sockets replaced by recording stand-ins
 #[kani::proof]
 #[kani::stub(std::fmt::format, format_stub)]
 fn srv_requests_clients() {
@@ -245,12 +245,12 @@ fn srv_requests_clients() {
                 assert!(w.reads[i] <= 1 && w.writes[i] <= 1, "[C08,C03] more than one read or write on a connection in one polling step");
                 // yielded requests carrying this id
                 let mut mine = 0u32;
-                let mut q = 0;
-                while q < reqs.len() {
-                    if reqs[q].id == fd as u64 {
-                        mine += 1;
+                if fd == C0 {
+                    // (single-event queries: every yielded request must carry this id)
+                    mine = reqs.len() as u32;
+                    if mine >= 1 {
+                        assert!(reqs[0].id == fd as u64, "[C07] yielded request carries another connection's id");
                     }
-                    q += 1;
                 }
                 let hup = had_event && bits & (E_ERR | E_HUP | E_RDHUP) != 0;
                 let want_read = had_event && !hup && bits & E_IN != 0;
@@ -317,7 +317,7 @@ fn srv_requests_clients() {
 // ---------------------------------------------------------------------------------------------
 // S2: listener event: accept below capacity / refuse at capacity (C10, C04, C07)
 // ---------------------------------------------------------------------------------------------
-// @harness props=C10,C04,C07,C03 tiers=quick:N=0|N=1|N=2;thorough:N=0|N=1|N=2 unwind=132 cap=1500 mem=12 covers=1
+// @harness props=C10,C04,C07 props_thorough=C03 tiers=quick:N=0|N=1|N=2;thorough:N=0|N=1|N=2 unwind=132 cap=1500 mem=4 covers=1
 // @fn HttpServer::requests HttpServer::handle_new_connection HttpServer::epoll_add HttpConnection::set_payload_max_size
 // @stubs std::fmt::format
 // @claim a readable listener with N connections open (capacity MAX_CONNECTIONS=2 in this configuration): below capacity the client is accepted - non-blocking, registered for IN|RDHUP under its own descriptor as id, AwaitingIncoming, nothing in flight, payload limit = the limit configured at the server at that moment; at capacity the client is accepted only to receive exactly the documented 503 message and is dropped (closed once, never registered), and no existing connection is removed or changed; the polling function returns normally
@@ -376,7 +376,7 @@ fn srv_accept() {
 // ---------------------------------------------------------------------------------------------
 // S3: kill switch (C18)
 // ---------------------------------------------------------------------------------------------
-// @harness props=C18,C03 tiers=quick:K=11,N=0,M=1|K=1,N=0,M=2|K=13,N=0,M=2|K=6,N=1,M=2|K=10,N=0,M=2|K=12,N=0,M=2|K=12,N=0,M=1|K=4,N=0,M=0;thorough:K=11,N=0,M=1|K=11,N=0,M=0|K=0,N=0,M=2|K=1,N=0,M=2|K=1,N=0,M=1|K=3,N=0,M=2|K=4,N=0,M=2|K=5,N=0,M=2|K=13,N=0,M=2|K=14,N=0,M=2|K=6,N=1,M=2|K=9,N=2,M=2|K=10,N=0,M=2|K=10,N=3,M=1|K=12,N=0,M=2|K=12,N=0,M=1|K=12,N=0,M=0|K=6,N=5,M=2|K=4,N=0,M=0 unwind=6 cap=1500 mem=12 covers=1
+// @harness props=C18 props_thorough=C03 tiers=quick:K=11,N=0,M=1|K=4,N=0,M=2|K=14,N=0,M=2|K=3,N=0,M=1|K=10,N=0,M=2|K=12,N=0,M=2|K=12,N=0,M=1|K=4,N=0,M=0|K=9,N=3,M=2;thorough:K=11,N=0,M=1|K=11,N=0,M=0|K=0,N=0,M=2|K=3,N=0,M=2|K=3,N=0,M=1|K=4,N=0,M=2|K=5,N=0,M=2|K=14,N=0,M=2|K=14,N=0,M=1|K=7,N=2,M=2|K=9,N=3,M=2|K=10,N=0,M=2|K=10,N=3,M=1|K=12,N=0,M=2|K=12,N=0,M=1|K=12,N=0,M=0|K=6,N=5,M=2|K=4,N=0,M=0 unwind=6 cap=600 mem=4 covers=1
 // @fn HttpServer::requests HttpServer::add_kill_switch
 // @stubs std::fmt::format
 // @claim a batch that contains the kill-switch event makes the polling function return the shutdown indication - wherever the event stands in the batch and whatever the other event is (readable connection that completes requests, writable, hang-up, listener with a client waiting) - and the event buffer offered to epoll_wait has room for the listener, the kill switch and every connection; without a kill switch registered, or without its event, no shutdown is reported
@@ -428,7 +428,7 @@ fn srv_kill() {
 // ---------------------------------------------------------------------------------------------
 // S4: respond() (C07, C08)
 // ---------------------------------------------------------------------------------------------
-// @harness props=C07,C08,C03 tiers=quick:N=0,M=0|N=1,M=0|N=4,M=0|N=0,M=1|N=2,M=2;thorough:N=0,M=0|N=1,M=0|N=2,M=0|N=3,M=0|N=4,M=0|N=5,M=0|N=0,M=1|N=5,M=1|N=2,M=2|N=0,M=2 unwind=6 cap=1500 mem=12 covers=1
+// @harness props=C07,C08 props_thorough=C03 tiers=quick:N=0,M=0|N=1,M=0|N=4,M=0|N=0,M=1|N=2,M=2;thorough:N=0,M=0|N=1,M=0|N=2,M=0|N=3,M=0|N=4,M=0|N=5,M=0|N=0,M=1|N=5,M=1|N=2,M=2|N=0,M=2 unwind=6 cap=1500 mem=4 covers=1
 // @fn HttpServer::respond ClientConnection::enqueue_response HttpServer::epoll_mod
 // @stubs std::fmt::format
 // @claim respond(id): only the connection whose descriptor equals the id changes; on an open connection the response is appended to its output, the in-flight count drops by one and the connection ends up AwaitingOutgoing with OUT interest (no lost wake-up); on a closed connection the response is dropped but still counted; an unknown id changes nothing and is not an error; the invariant holds afterwards
@@ -486,7 +486,7 @@ fn srv_respond() {
 // ---------------------------------------------------------------------------------------------
 // S5: the limit of a live connection is the one configured when it connected (C04)
 // ---------------------------------------------------------------------------------------------
-// @harness props=C04 tiers=quick;thorough unwind=6 cap=900 mem=8 covers=1
+// @harness props=C04 tiers=quick;thorough unwind=6 cap=900 mem=4 covers=1
 // @fn HttpServer::set_payload_max_size
 // @claim changing the server's payload limit does not change the limit of a connection that is already open
 // @bounds one open connection, old and new limit symbolic
@@ -501,4 +501,73 @@ fn srv_limit_fixed_at_connect() {
     assert!(ck::limit_of(&srv.connections.get(&C0).unwrap().connection) == before, "[C04] limit of a live connection changed after it connected");
     kani::cover!(newl != before);
     std::mem::forget(srv);
+}
+
+// ---------------------------------------------------------------------------------------------
+// S6: ClientConnection::read / enqueue_response on their own (C07 accounting, C13, C11)
+// ---------------------------------------------------------------------------------------------
+// @harness props=C07,C13,C11 props_thorough=C08,C10,C03 tiers=quick:K=0|K=1|K=2|K=3|K=4|K=5|K=13|K=14;thorough:K=0|K=1|K=2|K=3|K=4|K=5|K=13|K=14 unwind=6 cap=900 mem=4 covers=1
+// @fn ClientConnection::read ClientConnection::enqueue_response ClientConnection::is_done
+// @stubs std::fmt::format
+// @claim ClientConnection::read for every outcome class of try_read: the requests handed to the caller are exactly the ones parsed (none after an error), the in-flight count grows by exactly their number and by nothing else (requests discarded by a parse error were never counted and are not subtracted), a parse error queues exactly one 400, pending output switches the connection to AwaitingOutgoing whether or not requests were yielded, end of stream closes it; then enqueue_response on that connection: count decremented by one, response queued unless the connection is closed; is_done <=> closed and nothing pending and count 0
+// @bounds read outcome K fixed per query (0 nothing, 1/2 requests, 3 100-continue, 4 parse error, 5 EOF, 13/14 one request followed by 3/4); in-flight count before symbolic 0..3
+#[kani::proof]
+#[kani::stub(std::fmt::format, format_stub)]
+fn cc_read() {
+    unsafe {
+        W = World::new();
+        ck::MODEL_IO = true;
+        crate::response::verif_kani::MODEL_DEC = true;
+        ck::READ_PLAN[C0 as usize] = crate::verif_params::K as u8;
+    }
+    world().open[C0 as usize] = true;
+    let conn = HttpConnection::new(crate::verif_mock::UnixStream { fd: C0 });
+    let mut cc = ClientConnection::new(conn);
+    let before: u32 = kani::any();
+    kani::assume(before <= 3);
+    cc.in_flight_response_count = before;
+    let r = cc.read();
+    let (outcome, pushed) = unsafe { ck::READ_LOG[C0 as usize] };
+    let yielded = match &r {
+        Ok(v) => v.len(),
+        Err(_) => panic!("[C09,C07] ClientConnection::read failed"),
+    };
+    let pending = cc.connection.pending_write();
+    match outcome {
+        4 => {
+            assert!(yielded == 0, "[C07,C11] requests yielded although the input was rejected");
+            assert!(cc.in_flight_response_count == before, "[C07,C10] in-flight count changed by a parse error");
+            assert!(ck::queue_len(&cc.connection) == 1 && ck::last_queued_status(&cc.connection) == Some(StatusCode::BadRequest), "[C11] parse error must be answered with exactly one 400");
+            assert!(state_code(&cc.state) == 1, "[C08,C13] pending output but connection not switched to writing");
+        }
+        5 => {
+            assert!(yielded == 0 && cc.in_flight_response_count == before);
+            assert!(state_code(&cc.state) == 2 && !pending, "[C09] end of stream must close the connection");
+        }
+        _ => {
+            assert!(yielded == pushed as usize, "[C07,C08] yielded requests differ from the parsed ones");
+            assert!(cc.in_flight_response_count == before + pushed as u32, "[C07,C10] in-flight accounting");
+            if outcome == 3 {
+                assert!(pending && state_code(&cc.state) == 1, "[C13,C08] interim response pending but the connection is not switched to writing");
+            } else {
+                assert!(!pending && state_code(&cc.state) == 0);
+            }
+        }
+    }
+    // the application answers one request (if it holds one)
+    if cc.in_flight_response_count >= 1 {
+        let q0 = ck::queue_len(&cc.connection);
+        let n0 = cc.in_flight_response_count;
+        let closed = state_code(&cc.state) == 2;
+        let e = cc.enqueue_response(Response::new(Version::Http11, StatusCode::NoContent));
+        assert!(e.is_ok());
+        assert!(cc.in_flight_response_count == n0 - 1, "[C07] answered request not counted");
+        assert!(ck::queue_len(&cc.connection) == if closed { q0 } else { q0 + 1 }, "[C07] response for a closed connection must be dropped, for an open one queued");
+        std::mem::forget(e);
+    }
+    let done = state_code(&cc.state) == 2 && !cc.connection.pending_write() && cc.in_flight_response_count == 0;
+    assert!(cc.is_done() == done, "[C07,C10] is_done() disagrees with: closed, nothing pending, nothing in flight");
+    kani::cover!(true, "end reached");
+    std::mem::forget(r);
+    std::mem::forget(cc);
 }
